@@ -489,3 +489,19 @@ def replay_case(prop, path):
         log('model: ' + str(list(m.values())))
         return 0 if [canon_str(x) for x in g.values()] == [canon_str(x) for x in m.values()] else 1
     return 0
+
+
+def require_builds(ctx, b):
+    if not (b.get('harness') and b.get('model', True)):
+        ctx.violation('build failed: ' + '; '.join(o['name'] for o in ctx.broken_obligations()),
+                      dict(kind='build', obligations=ctx.broken_obligations()), found_input=False)
+        return False
+    return True
+
+
+def epilogue(ctx):
+    """A proof obligation that no longer checks is a violation even when no failing input was found."""
+    broken = [o for o in ctx.broken_obligations() if o['kind'] in ('theorem', 'build', 'hygiene', 'translator')]
+    if broken and not ctx.violations:
+        ctx.violation('proof obligations no longer check: ' + '; '.join(o['name'] for o in broken),
+                      dict(kind='obligations', obligations=broken), found_input=False)
